@@ -9,16 +9,16 @@ namespace Rscel
     (the scalar arms of the closure body of `CelValueDyn::eq`). -/
 def eqScalar (l r : Val) : Val :=
   match widen l r with
-  | (.int a, .int b) => .bool (a == b)
-  | (.uint a, .uint b) => .bool (a == b)
+  | (.int a, .int b) => .bool (decide (a = b))
+  | (.uint a, .uint b) => .bool (decide (a = b))
   | (.float a, .float b) => .bool (F.eq a b)
-  | (.bool a, .bool b) => .bool (a == b)
-  | (.str a, .str b) => .bool (a == b)
-  | (.bytes a, .bytes b) => .bool (a == b)
+  | (.bool a, .bool b) => .bool (decide (a = b))
+  | (.str a, .str b) => .bool (decide (a = b))
+  | (.bytes a, .bytes b) => .bool (decide (a = b))
   | (.null, .null) => .bool true
-  | (.ts a, .ts b) => .bool (a == b)
-  | (.dur a, .dur b) => .bool (a == b)
-  | (.type a, .type b) => .bool (a == b)
+  | (.ts a, .ts b) => .bool (decide (a = b))
+  | (.dur a, .dur b) => .bool (decide (a = b))
+  | (.type a, .type b) => .bool (decide (a = b))
   | _ => .bool false
 
 mutual
